@@ -1261,8 +1261,8 @@ void OPNMIDIplay::noteUpdate(size_t midCh,
         {
             OpnChannel::users_iterator d = m_chipChannels[c].find_user(my_loc);
 
-            // Don't bend a sustained note
-            if(d.is_end() || (d->value.sustained == OpnChannel::LocationData::Sustain_None))
+            // Don't bend a note held by the sustain pedal; sostenuto only marks notes whose keys are still down
+            if(d.is_end() || ((d->value.sustained & OpnChannel::LocationData::Sustain_Pedal) == 0))
             {
                 MIDIchannel &chan = m_midiChannels[midCh];
                 double midibend = chan.bend * chan.bendsense;
